@@ -343,3 +343,55 @@ PROPS = {
                  'claim about that window'],
  'timeout': {'quick': 600, 'thorough': 3600}},
 }
+
+
+PROPS["C09"] = {'assumptions': ['one global clock read by every time.Now() (the code compares wall clocks of different machines directly); strictness only where a '
+                 'theorem says DisjointWindows',
+                 'UnregisterShard is atomic w.r.t. RegisterShard of the same shard on the same node (its delete / unlock / delete-again window is '
+                 'C08)',
+                 "a node's snapshot fits LocalState's 4096-byte limit (about 45 shards per instance; beyond it LocalState degrades to the bare node "
+                 "name and peers ignore it: exercised and reported, outside the property's 1-2 shards)",
+                 'memberlist itself (SWIM probing, reliable send, push/pull scheduling) is modelled as the harness-owned network; its delivery '
+                 'guarantee is the EmittedDelivered / AllDelivered hypothesis',
+                 'the remote hand-off is observed at the registered intra-proxy stream (server stream for messages, client stream for '
+                 'acknowledgements); what the peer does with it is C01-C04 on that peer'],
+ 'engine': 'TestC09',
+ 'lean_modules': ['S2S.Props.C09'],
+ 'required_theorems': ['C09_holder_not_older_than_any_claim_that_reached_it',
+                       'C09_only_newest_claimant_remains',
+                       'C09_delivered_were_emitted',
+                       'C09_overlapping_claims_evict_both',
+                       'C09_refuted',
+                       'C09_exactly_one_owner_partial',
+                       'C09_exactly_one_owner_fixed',
+                       'C09_equal_stamps_keep_both',
+                       'C09_leave_removes_until_merge',
+                       'C09_stale_merge_resurrects_departed',
+                       'C09_departed_refuted',
+                       'C09_departed_own_nothing_partial',
+                       'C09_msg_true_iff_exactly_one',
+                       'C09_msg_local_first',
+                       'C09_msg_else_remote_owner',
+                       'C09_msg_neither_is_reported',
+                       'C09_ack_true_iff_exactly_one',
+                       'C09_ack_neither_is_reported',
+                       'C09_owner_is_another_node',
+                       'C09_desired_receivers',
+                       'C09_desired_senders_inverse',
+                       'C09_reconcile_prunes_everything_else'],
+ 'rule': '2-3 REAL shardManagerImpls in one process inside a testing/synctest bubble, the memberlist transport replaced by the verif broadcast tap '
+         '(the harness owns the in-flight list: deliver / duplicate / delay any announcement or snapshot), virtual clock advanced only by `tick` so '
+         "every time.Now() of the real code is the model's clock, RegisterShard split at the schedule point RegisterShard.afterAdd. One op = one "
+         'action of the Lean machine; after every op the local shard tables (with Created), remoteNodeStates, parked registrations, live local '
+         'streams, the in-flight list and the clock are compared with the model. (1) stateless DFS over ALL interleavings of add / announce / '
+         'deliver for every claim pattern of <= 3 claims on 2-3 nodes x 1-2 shards (canonical up to renaming; complete where the count is below the '
+         'cap, a seeded sample beyond it), each interleaving once without and once with duplication of every announcement, plus equal-stamp variants '
+         '(no tick); (2) seeded random schedules mixing stream ends, snapshots in flight, departures / NotifyLeave at any point, routing calls; (3) '
+         'the routing cross product: local channel absent / consuming / full+shutdown / closed / closed+shutdown x memberlist x routing mode x owner '
+         'unknown / self entry / other with / without address x intra-proxy sender registered / failing / absent (2 s virtual wait) for messages, '
+         'and the same with allowForward and a REAL gRPC intra-proxy receiver for acknowledgements; (4) ReconcilePeerStreams on real managers with '
+         'real gRPC peers against the pure desired-set functions. Monitor (independent of the model): at the end of every complete schedule no '
+         'holder is older than a claim that reached it, exactly the newest claimant holds where the full-strength clause applies, departed nodes are '
+         'absent from every table; every delivery call returned true iff exactly one recipient got the item. Non-trivial = at least two claims or a '
+         'leave or a routing call; distinct by op list.',
+ 'timeout': {'quick': 1200, 'thorough': 7200}}
